@@ -72,6 +72,9 @@ class RelativeJumpOpcode(OpcodeWithoutOperand):
 
         if isinstance(value_node, ExpressionNode):
             pc = resolver.pc
+            if resolver.reloc_address.physical is None:
+                # resolver.pc is the storage offset here, not the address the branch runs from.
+                raise RuntimeError("Relative jumps from code relocated to ram are not supported.")
             physical_destination = resolver.get_bus().get_address(value).physical
 
             if physical_destination is None:
